@@ -120,7 +120,8 @@ def run_job(job, rel, cps=None):
 
 def twin(job, records, fname):
     """run one job alone in a fresh process with an empty cache"""
-    payload = json.dumps({"job": job, "records": records, "fname": fname})
+    # the twin is always created directly (CsvPath()): the property also says the creation route does not matter
+    payload = json.dumps({"job": dict(job, via="CsvPath"), "records": records, "fname": fname})
     env = dict(os.environ)
     env.pop("CSVPATH_CONFIG_PATH", None)
     r = subprocess.run([sys.executable, "-m", "vf.props.c19"], input=payload, capture_output=True, text=True,
@@ -166,7 +167,7 @@ def run_case(case, sb):
         shared = shared or used[k] >= 2
         via_cps = via_cps or (job["via"] == "CsvPaths" and (case["warm"] or used[k] >= 2))
         got = run_job(job, rels[k], cps if job["via"] == "CsvPaths" else None)
-        key = core.case_hash({"job": job, "records": current[k]})
+        key = core.case_hash({"job": dict(job, via="CsvPath"), "records": current[k]})
         if key not in twins:
             twins[key] = twin(job, current[k], files[k]["name"])
         exp = twins[key]
